@@ -103,12 +103,22 @@ def listing(paths: list[str], opts: Any, cwd: str) -> tuple[list[tuple[str, str,
 
 
 def finder_for(S: list[tuple[str, str, str]], opts: Any, fsc: Any) -> Any:
-    """FindModuleCache on the search paths the real compute_search_paths derives from S."""
+    """FindModuleCache on the search paths the real compute_search_paths derives from S.  Within one
+    world (the tree does not change) one instance is re-pointed at the new search paths, the way
+    FindModuleCache._can_find_module_in_parent_dir does, so that typeshed is listed once."""
     from mypy.modulefinder import BuildSource, FindModuleCache, compute_search_paths
 
     bs = [BuildSource(_abs(p), m, None, _abs(b)) for m, p, b in S]
     sp = compute_search_paths(bs, opts, _G["data_dir"])
-    return FindModuleCache(sp, fsc, opts, stdlib_py_versions=_G["stdlib"])
+    fmc = _G.get("fmc")
+    if fmc is None or _G.get("fmc_tree") is not _G["tree"] or fmc.options is not opts:
+        fmc = FindModuleCache(sp, fsc, opts, stdlib_py_versions=_G["stdlib"])
+        _G["fmc"], _G["fmc_tree"] = fmc, _G["tree"]
+    else:
+        fmc.search_paths = sp
+        fmc.results.clear()
+        fmc.ns_ancestors.clear()
+    return fmc
 
 
 def pkg_finder(opts: Any) -> Any:
@@ -363,12 +373,22 @@ def culprits_of(kind: str, d: dict[str, Any]) -> list[str]:
 
 
 def canonical(files: list[str], culprit: str | None) -> tuple[list[str], str | None]:
-    """Rename directory names / stems by order of first appearance (culprit first)."""
+    """Rename directory names / stems by order of first appearance (culprit first).  Files inside the
+    directory that has the culprit's own name are rendered as `<dir>/*` (what they are called does
+    not matter for a module file shadowed by that directory)."""
+    shadow_dir = None
+    if culprit:
+        stem = culprit.rsplit(".", 1)[0]
+        if any(f.startswith(stem + "/") for f in files):
+            shadow_dir = stem + "/"
     order = ([culprit] if culprit else []) + sorted(f for f in files if f != culprit)
     ren: dict[str, str] = {"r": "r", "__init__": "__init__"}
     letters = iter("abcdefghij")
 
     def rn(path: str) -> str:
+        if shadow_dir and path.startswith(shadow_dir):
+            init = path[len(shadow_dir):] in ("__init__.py", "__init__.pyi")
+            return rn(shadow_dir[:-1] + ".py")[:-3] + ("/__init__" if init else "/*")
         parts = path.split("/")
         stem, ext = parts[-1].rsplit(".", 1)
         outp = []
@@ -379,12 +399,40 @@ def canonical(files: list[str], culprit: str | None) -> tuple[list[str], str | N
         return "/".join(outp) + "." + ext
 
     mapped = {f: rn(f) for f in order}
-    return sorted(mapped[f] for f in files), (mapped[culprit] if culprit else None)
+    return sorted({mapped[f] for f in files}), (mapped[culprit] if culprit else None)
+
+
+_MEMO: dict[Any, bool] = {}
+
+
+def has_flag_m(files: list[str], cfg: dict[str, Any], kind: str, culprit: str | None) -> bool:
+    k = (tuple(files), json.dumps(cfg, sort_keys=True), kind, culprit)
+    if k not in _MEMO:
+        if len(_MEMO) > 200000:
+            _MEMO.clear()
+        _MEMO[k] = has_flag(files, cfg, kind, culprit)
+    return _MEMO[k]
+
+
+_MINI: dict[Any, tuple[str, dict[str, Any]]] = {}
 
 
 def minimise(files: list[str], cfg: dict[str, Any], kind: str, culprit: str | None) -> tuple[str, dict[str, Any]]:
+    mk = (tuple(files), json.dumps(cfg, sort_keys=True), kind, culprit)
+    if mk in _MINI:
+        return _MINI[mk]
     files = list(files)
     cfg = dict(cfg)
+
+    def shrink_cfg() -> None:
+        nonlocal cfg
+        for k in ("epb", "ns", "mp", "cwd", "tgt"):
+            if cfg[k] != BASE_CFG[k]:
+                trial_cfg = dict(cfg, **{k: BASE_CFG[k]})
+                if has_flag_m(files, trial_cfg, kind, culprit):
+                    cfg = trial_cfg
+
+    shrink_cfg()
     changed = True
     while changed:
         changed = False
@@ -392,18 +440,15 @@ def minimise(files: list[str], cfg: dict[str, Any], kind: str, culprit: str | No
             if f == culprit:
                 continue
             trial = [g for g in files if g != f]
-            if trial and has_flag(trial, cfg, kind, culprit):
+            if trial and has_flag_m(trial, cfg, kind, culprit):
                 files = trial
                 changed = True
-    for k in ("epb", "ns", "mp", "cwd", "tgt"):
-        if cfg[k] != BASE_CFG[k]:
-            trial_cfg = dict(cfg, **{k: BASE_CFG[k]})
-            if has_flag(files, trial_cfg, kind, culprit):
-                cfg = trial_cfg
+    shrink_cfg()
     cf, cc = canonical(files, culprit)
     delta = ",".join("%s=%s" % (k, json.dumps(cfg[k])) for k in ("ns", "epb", "cwd", "mp", "tgt") if cfg[k] != BASE_CFG[k])
     key = "%s|%s|culprit=%s|%s" % (kind, " ".join(cf), cc, delta or "default")
-    return key, {"files": files, "cfg": cfg, "kind": kind, "culprit": culprit}
+    _MINI[mk] = (key, {"files": files, "cfg": cfg, "kind": kind, "culprit": culprit})
+    return _MINI[mk]
 
 
 def replay_chunk(worlds: list[dict[str, Any]]) -> dict[str, Any]:
@@ -445,11 +490,44 @@ def replay_chunk(worlds: list[dict[str, Any]]) -> dict[str, Any]:
 
 # =========================================================================== end-to-end confirmation
 def program_for(files: list[str], D: list[tuple[str, str, str]]) -> dict[str, str]:
-    """Contents: every file defines a class named after its own path; every named .py file imports
-    every other named module and reveals which file it got, and contains one error of its own."""
+    """Contents: every file defines a class named after its own path.  Every named .py file imports
+    named modules (as many as possible without creating an import cycle -- the order in which mypy
+    processes a cycle legitimately depends on the order of the sources) and reveals which file it
+    got, and contains one error of its own."""
     def cls(p: str) -> str:
         return "C_" + p.replace("/", "_").replace(".", "_")
-    mods = [(m, p) for m, p, _ in D if m != "__main__"]
+    mods = sorted(((m, p) for m, p, _ in D if m != "__main__"), key=lambda t: t[1])
+    modfile = {m: p for m, p in mods}
+    deps: dict[str, set[str]] = {p: set() for _, p in mods}
+
+    def ancestors(m: str) -> list[str]:
+        parts = m.split(".")
+        return [modfile[".".join(parts[:k])] for k in range(1, len(parts)) if ".".join(parts[:k]) in modfile]
+
+    for m, p in mods:
+        deps[p].update(a for a in ancestors(m) if a != p)
+
+    def reaches(a: str, b: str) -> bool:
+        seen, todo = set(), [a]
+        while todo:
+            x = todo.pop()
+            if x == b:
+                return True
+            if x not in seen:
+                seen.add(x)
+                todo += deps.get(x, ())
+        return False
+
+    imports: dict[str, list[str]] = {p: [] for _, p in mods}
+    for i, (m, p) in enumerate(mods):
+        if not p.endswith(".py"):
+            continue
+        for m2, p2 in mods[:i]:
+            targets = {p2} | set(ancestors(m2))
+            if p in targets or any(reaches(t, p) for t in targets):
+                continue
+            deps[p] |= targets
+            imports[p].append(m2)
     cont: dict[str, str] = {}
     for f in files:
         c = cls(f)
@@ -457,12 +535,12 @@ def program_for(files: list[str], D: list[tuple[str, str, str]]) -> dict[str, st
             body = "class %s: ...\nTAG: %s\n" % (c, c)
         else:
             body = "class %s: pass\nTAG = %s()\n" % (c, c)
-        named = [m for m, p in mods if p == f]
-        if named and f.endswith(".py"):
-            for m, p in mods:
-                if p != f:
-                    body += "import %s\nreveal_type(%s.TAG)\n" % (m, m)
+        if f in imports and f.endswith(".py"):
+            for m2 in imports[f]:
+                body += "import %s\nreveal_type(%s.TAG)\n" % (m2, m2)
             body += "TAG.nope\n"
+        elif f in imports:
+            body += "BAD: %s = 0\n" % c
         cont[f] = body
     return cont
 
@@ -474,7 +552,7 @@ def norm_lines(lines: list[str], cwd: str) -> list[str]:
         if sep and (head.endswith(".py") or head.endswith(".pyi")):
             ln = _rel(os.path.normpath(os.path.join(cwd, head))) + ":" + rest
         if "Duplicate module named" in ln:
-            ln = "<duplicate module error>"
+            return ["<duplicate module error>"]
         if ln.startswith("Found ") or ln.startswith("Success") or "See https://" in ln or "Common resolutions" in ln \
                 or ln.strip().startswith(("a) ", "b) ", "c) ")) or not ln.strip():
             continue
@@ -502,6 +580,7 @@ def build_inprocess(args: list[str], cfg: dict[str, Any]) -> tuple[list[str], di
     except SystemExit as e:
         return ["<process_options exit %s>" % e.code], None
     options.mypy_path = [_abs(m) for m in cfg["mp"]]
+    options.use_builtins_fixtures = True   # A-fixtures: lib-stub builtins (18 ms builds); the CLI sample uses typeshed
     try:
         res = build.build(targets, options, fscache=fsc)
     except CompileError as e:
@@ -566,7 +645,8 @@ def e2e_cli(job: dict[str, Any]) -> dict[str, Any]:
     os.chdir(cwd)
     real = observe_real(files, cfg)
     D = real["D"]
-    materialise(files, program_for(files, D))
+    # (for a known finding every file gets its own diagnostic, so that a file that is not checked shows)
+    materialise(files, program_for(files, real["A"] if job.get("expect_differs") else D))
     os.chdir(cwd)
     T = cfg["tgt"]
     base = [PY, "-m", "mypy", "--config-file", _G["ini"], "--no-site-packages", "--no-incremental",
@@ -623,6 +703,9 @@ def main(argv: list[str]) -> int:
     tier, seed, replay = parse_args(argv)
     v = Verdict(PID, tier, seed)
     rnd = random.Random(seed)
+    # tens of thousands of small trees are created and removed: use tmpfs when it is there
+    if not os.environ.get("VERIF_SCRATCH") and os.path.isdir("/dev/shm") and os.access("/dev/shm", os.W_OK):
+        os.environ["VERIF_SCRATCH"] = "/dev/shm"
     root = scratch("c18-")
     sany(os.path.join(SPEC, "MC_ModuleMap.tla"))
 
@@ -630,7 +713,7 @@ def main(argv: list[str]) -> int:
         return replay_one(v, root, replay)
 
     gens = QUICK_GEN if tier == "quick" else THOROUGH_GEN
-    per = max(2, NWORK // (3 if tier == "quick" else 4))
+    per = max(2, NWORK // (5 if tier == "quick" else 4))
     cov: dict[str, Any] = {}
     states = transitions = 0
 
@@ -640,10 +723,10 @@ def main(argv: list[str]) -> int:
         cfg, with_cov = job
         return cfg, tlc("MC_ModuleMap", cfg, workers=per, coverage=with_cov, timeout=3000, heap="6g")
 
-    side = [("MC_ModuleMap_A3.cfg", True), ("Mut_ModuleMap_AsIs_NoExemption.cfg", False), ("Rep_ModuleMap_InitOnly.cfg", False)]
+    side = [("MC_ModuleMap_A2.cfg", True), ("Mut_ModuleMap_AsIs_NoExemption.cfg", False), ("Rep_ModuleMap_InitOnly.cfg", False)]
     worlds: list[dict[str, Any]] = []
     t_tlc = time.time()
-    with ThreadPoolExecutor(3 if tier == "quick" else 4) as ex:
+    with ThreadPoolExecutor(6 if tier == "quick" else 4) as ex:
         results = list(ex.map(run_tlc, [(g, False) for g in gens] + side))
     for cfg, r in results:
         if r.error:
@@ -676,9 +759,21 @@ def main(argv: list[str]) -> int:
         raise MachineryError("too few worlds emitted: %d" % len(worlds))
 
     # ---- 2. replay of every world into the real code
-    rnd.shuffle(worlds)
-    chunk = 200
-    chunks = [worlds[i:i + chunk] for i in range(0, len(worlds), chunk)]
+    # worlds of the same tree stay together (the tree is materialised once); the seed permutes the trees
+    by_tree: dict[str, list[dict[str, Any]]] = {}
+    for x in worlds:
+        by_tree.setdefault(" ".join(sorted(x["tree"])), []).append(x)
+    tree_keys = sorted(by_tree)
+    rnd.shuffle(tree_keys)
+    chunks = []
+    cur: list[dict[str, Any]] = []
+    for tk in tree_keys:
+        cur += by_tree[tk]
+        if len(cur) >= 150:
+            chunks.append(cur)
+            cur = []
+    if cur:
+        chunks.append(cur)
     t_rep = time.time()
     agg: dict[str, Any] = {"n": 0, "drift": [], "viol": {}, "exempt": {}, "stats": {}, "errors": []}
     samples: list[Any] = []
@@ -718,7 +813,7 @@ def main(argv: list[str]) -> int:
         rich = [x for x in cand if (x["cmp"] and x["full"] and len(x["D"]) >= 2) or x["dupD"] or len(x["bases"]) >= 2]
         rnd.shuffle(rich)
         n_in = 400 if tier == "quick" else 4000
-        n_cli = 24 if tier == "quick" else 160
+        n_cli = 13 if tier == "quick" else 160
         jobs = [{"cfg": {k: x[k] for k in ("ns", "epb", "cwd", "mp", "tgt")}, "files": x["tree"]} for x in rich[:n_in]]
         t_e2e = time.time()
         e2e: list[dict[str, Any]] = []
